@@ -261,16 +261,24 @@ def main(argv=None):
             rows.setdefault(row[0], row)
         for ch in el.children:
             row = rows.get(ch.name)
-            if row is None or ch.classname not in ('Group', 'Segment', 'Field'):
+            if row is None or ch.classname not in ('Group', 'Segment', 'Field', 'Component', 'SubComponent'):
                 continue
             dist['threading_checks'] = dist.get('threading_checks', 0) + 1
             chref = getattr(ch, 'reference', None)
+            if ch.classname == 'SubComponent':
+                # a leaf: what it takes from the profile is its datatype (length and table are read from the parent's row)
+                if ch.datatype != row[1][2]:
+                    run.fail('child-datatype-not-from-profile', 'a subcomponent does not take the datatype its parent\'s '
+                             '(profile) reference declares for it', version=v, structure=m, parent=el.name, child=ch.name,
+                             got=ch.datatype, profile=row[1][2], route=route, segment=None, path=None, text=None, level=None,
+                             edits=None)
+                continue
             if chref is None or not same_ref(chref, row[1]):
                 run.fail('child-reference-not-from-profile', 'a child does not carry the sub-reference its parent\'s '
                          '(profile) reference declares for it', version=v, structure=m, parent=el.name, child=ch.name,
                          cls=ch.classname, route=route)
                 continue
-            if ch.classname in ('Group', 'Segment'):
+            if ch.classname in ('Group', 'Segment', 'Field', 'Component'):
                 check_threading(ch, v, m, route)
 
     def deep_edit(ref):
@@ -369,12 +377,133 @@ def main(argv=None):
                                  'carry the profile\'s sub-reference', version=v, structure=m, parent=m, child=row[0],
                                  cls=ch.classname, route='add_helper')
                 check_threading(m3, v, m, 'add_helper')
+                # children copied from a message built WITHOUT the profile (message.pid = other.pid): the copy is rebuilt
+                # under the target's profile
+                src = parse_message(text, validation_level=S.TOLERANT)
+                m4 = Message(m, version=v, reference=prof, validation_level=S.TOLERANT)
+                for row in prof[m][1]:
+                    if row[0] == 'MSH':
+                        continue
+                    px = getattr(src, row[0].lower())
+                    if len(px) == 0:
+                        continue
+                    try:
+                        setattr(m4, row[0].lower(), px)
+                    except HL7apyException:
+                        continue
+                    dist['proxy_copies'] = dist.get('proxy_copies', 0) + 1
+                check_threading(m4, v, m, 'proxy-assignment')
             except HL7apyException as ex:
                 run.note('group profile %s %s skipped: %r' % (v, m, ex))
             except Exception as ex:  # noqa
                 run.fail('profiled-parse-crashes', 'parsing / building a conforming message under a profile that differs '
                          'inside a repeating group raised a non-library exception', version=v, structure=m,
                          path=ed[1], text=text, exc=repr(ex))
+    # ---- a profile that constrains ONE of two same-named components (the same datatype at two positions of a segment)
+    def twin_fields(seg_ref):
+        """(field row a, field row b, component name): two fields of one complex datatype that has a complex component"""
+        by_dt = {}
+        for frow in seg_ref[1]:
+            fr = frow[1]
+            if fr[0] == 'sequence' and any(c[1][0] == 'sequence' and len(c[1][1]) >= 2 for c in fr[1]):
+                by_dt.setdefault(fr[2], []).append(frow)
+        pairs = [(rows[0], rows[1]) for rows in by_dt.values() if len(rows) >= 2]
+        if not pairs:
+            return None
+        a, b = rng.choice(pairs)
+        comp = rng.choice([c for c in a[1][1] if c[1][0] == 'sequence' and len(c[1][1]) >= 2])
+        return a, b, comp[0]
+
+    def fill(fref, ec, only=None):
+        """every complex component with all its subcomponents; only=<name>: that component alone, first subcomponent alone"""
+        parts = []
+        for j, c in enumerate(fref[1]):
+            if only is not None:
+                parts.append('s0' if c[0] == only else '')
+            elif c[1][0] == 'sequence':
+                parts.append(ec['SUBCOMPONENT'].join('s%d' % k for k in range(len(c[1][1]))))
+            else:
+                parts.append('')
+        return ec['COMPONENT'].join(parts).rstrip(ec['COMPONENT'])
+
+    for v in S.VERSIONS:
+        lib = hl7apy.load_library(v)
+        ec = S.default_ec(v)
+        m = 'ADT_A01'
+        std = lib.MESSAGES[m]
+        done = 0
+        for srow in std[1]:
+            if srow[3] != 'SEG' or srow[0] == 'MSH' or srow[1] is None or done >= (2 if not run.thorough else 50):
+                continue
+            tw = twin_fields(srow[1])
+            if tw is None:
+                continue
+            a, b, cname = tw
+            r = thaw(std)
+            tsrow = [x for x in r[1] if x[0] == srow[0]][0]
+            # the edit sits inside the component of the SECOND of the two fields: its subcomponents become required and,
+            # where possible, change datatype; the first field (built first by the parser) keeps the standard ones
+            tfb = [x for x in tsrow[1][1] if x[0] == b[0]][0]
+            tc = [x for x in tfb[1][1] if x[0] == cname][0]
+            for sr in tc[1][1]:
+                sr[2] = [1, 1]
+                if sr[1][0] == 'leaf' and sr[1][2] in BASE_SWAP and BASE_SWAP[sr[1][2]] in lib.get_base_datatypes():
+                    sr[1][2] = BASE_SWAP[sr[1][2]]
+            prof = {m: freeze(r)}
+            done += 1
+            dist['twin_component_profiles'] = dist.get('twin_component_profiles', 0) + 1
+            ia, ib = int(a[0].split('_')[1]), int(b[0].split('_')[1])
+            flds = [''] * max(ia, ib)
+            flds[ia - 1] = fill(a[1], ec)
+            flds[ib - 1] = fill(b[1], ec)
+            others = [n for n in c01.instance_names(std, 'req') if n != 'MSH']
+            lines = [c01.msh_line(m, v)]
+            for n in others:
+                lines.append(n + '|' + '|'.join(flds) if n == srow[0] else c01.canonical_line(rng, lib, ec, n))
+            if srow[0] not in others:
+                lines.append(srow[0] + '|' + '|'.join(flds))
+            text = '\r'.join(lines)
+            where = dict(version=v, structure=m, segment=srow[0], fields=[a[0], b[0]], component=cname)
+            try:
+                # the standard structure of the component has been built in this process before (first field, earlier runs)
+                msg = parse_message(text, validation_level=S.TOLERANT, message_profile=prof)
+                check_threading(msg, v, m, 'parse_message/twin-components')
+                # traversal and the add_* helpers, the constrained position first
+                m2 = Message(m, version=v, reference=prof, validation_level=S.TOLERANT)
+                seg2 = m2.add_segment(srow[0])
+                for frow in (b, a):
+                    comp = getattr(getattr(seg2, frow[0].lower()), cname.lower())
+                    subname = [x for x in frow[1][1] if x[0] == cname][0][1][1][1][0]
+                    setattr(comp, subname.lower(), 'x')
+                check_threading(m2, v, m, 'traversal/twin-components')
+                m3 = Message(m, version=v, reference=prof, validation_level=S.TOLERANT)
+                seg3 = m3.add_segment(srow[0])
+                for frow in (a, b):
+                    fld = seg3.add_field(frow[0])
+                    comp = fld.add_component(cname)
+                    subname = [x for x in frow[1][1] if x[0] == cname][0][1][1][0][0]
+                    comp.add_subcomponent(subname).value = 'x'
+                check_threading(m3, v, m, 'add_helper/twin-components')
+                # validate() judges each position by the profile: leave the component of each field with its first
+                # subcomponent only - the profile requires the others in the second field alone
+                flds2 = list(flds)
+                flds2[ia - 1] = fill(a[1], ec, only=cname)
+                flds2[ib - 1] = fill(b[1], ec, only=cname)
+                text2 = text.replace(srow[0] + '|' + '|'.join(flds), srow[0] + '|' + '|'.join(flds2))
+                msg2 = parse_message(text2, validation_level=S.TOLERANT, message_profile=prof)
+                errs = [str(e) for e in msg2.validate(return_errors=True).errors]
+                want = 'Missing required child %s.' % cname
+                n_missing = len([e for e in errs if e.startswith(want)])
+                n_req = len(tc[1][1]) - 1
+                if n_missing != n_req:
+                    run.fail('profile-required-not-enforced', 'validate() does not report exactly the subcomponents the profile '
+                             'requires at the one constrained position (the same component elsewhere is unconstrained)',
+                             expected_missing=n_req, reported=[e for e in errs if cname in e][:6], text=text2, **where)
+            except HL7apyException as ex:
+                run.note('twin-component profile %s %s skipped: %r' % (v, srow[0], ex))
+            except Exception as ex:  # noqa
+                run.fail('profiled-parse-crashes', 'parsing / building under a profile that constrains one of two same-named '
+                         'components raised a non-library exception', exc=repr(ex), text=text, **where)
     # shipped profiles
     base = os.path.join(REPO, 'tests', 'profiles')
     try:
@@ -389,6 +518,25 @@ def main(argv=None):
                 run.fail('child-datatype-not-from-profile', 'ITI-21 profile: QPD-3 does not take the profile datatype QIP',
                          version='2.5', segment='QPD', path=['QPD_3'], got=msg.qpd.qpd_3.datatype, profile='QIP',
                          text=text, level=lvl, edits=None)
+        for lvl in (S.TOLERANT, S.STRICT):
+            src = parse_message(text, validation_level=S.TOLERANT)             # no profile: QPD-3 is varies
+            tgt = Message('RSP_K21', version='2.5', reference=iti, validation_level=lvl)
+            try:
+                tgt.qpd = src.qpd
+                got = tgt.qpd.qpd_3.datatype
+                if got != 'QIP' or tgt.qpd.allow_infinite_children:
+                    run.fail('child-datatype-not-from-profile', 'ITI-21 profile: a QPD copied from a message without the profile '
+                             '(target.qpd = source.qpd) does not take the profile datatype QIP for QPD-3', version='2.5',
+                             segment='QPD', path=['QPD_3'], got=got, profile='QIP', text=text, level=lvl, edits=None)
+                # (the MSH-1/MSH-2... fields pre-populated by the Message constructor are not in the property's scope)
+                qrow = [row for row in tgt.reference[1] if row[0] == 'QPD'][0]
+                if not same_ref(tgt.qpd[0].reference, qrow[1]):
+                    run.fail('child-reference-not-from-profile', 'a child does not carry the sub-reference its parent\'s '
+                             '(profile) reference declares for it', version='2.5', structure='RSP_K21', parent='RSP_K21',
+                             child='QPD', cls='Segment', route='proxy-assignment/iti-21')
+                check_threading(tgt.qpd[0], '2.5', 'RSP_K21', 'proxy-assignment/iti-21')
+            except HL7apyException as ex:
+                run.note('ITI-21 proxy copy refused: %r' % (ex,))
         legacy = hl7apy.load_message_profile(os.path.join(base, 'old_pharm_h4' + ('_win' if os.name == 'nt' else '')))
         try:
             Message('RAS_O17', reference=legacy)
